@@ -10,6 +10,9 @@
 /* index of the watched byte relative to dest, masked to 0 when outside [0,n) so that the read inside
  * __CPROVER_old is always in bounds (history of ?: expressions / calls is unsupported) */
 #define NV_WIDX(dest, n) ((g_woff - NV_OFF(dest)) & ((usize)0 - (usize)(g_woff - NV_OFF(dest) < (n))))
+/* a second, independent watched offset: lets a caller follow a byte that is copied twice */
+#define NV_HIT2(dest, n) (g_woff2 >= NV_OFF(dest) && g_woff2 - NV_OFF(dest) < (n))
+#define NV_WIDX2(dest, n) ((g_woff2 - NV_OFF(dest)) & ((usize)0 - (usize)(g_woff2 - NV_OFF(dest) < (n))))
 
 void c_Memory_copy(void* dest, const void* src, usize n)
 __CPROVER_requires(n == 0 || (__CPROVER_r_ok(src, n) && __CPROVER_w_ok(dest, n)))
@@ -19,6 +22,9 @@ __CPROVER_assigns(n != 0: __CPROVER_object_upto(dest, n))
 __CPROVER_ensures(NV_HIT(dest, n) ==>
   ((const byte*)dest)[g_woff - NV_OFF(dest)] ==
     __CPROVER_old(((const byte*)src)[NV_WIDX(dest, n)]))
+__CPROVER_ensures(NV_HIT2(dest, n) ==>
+  ((const byte*)dest)[g_woff2 - NV_OFF(dest)] ==
+    __CPROVER_old(((const byte*)src)[NV_WIDX2(dest, n)]))
 ;
 
 void c_Memory_move(void* dest, const void* src, usize n)
@@ -27,6 +33,9 @@ __CPROVER_assigns(n != 0: __CPROVER_object_upto(dest, n))
 __CPROVER_ensures(NV_HIT(dest, n) ==>
   ((const byte*)dest)[g_woff - NV_OFF(dest)] ==
     __CPROVER_old(((const byte*)src)[NV_WIDX(dest, n)]))
+__CPROVER_ensures(NV_HIT2(dest, n) ==>
+  ((const byte*)dest)[g_woff2 - NV_OFF(dest)] ==
+    __CPROVER_old(((const byte*)src)[NV_WIDX2(dest, n)]))
 ;
 
 /* memcmp: result 0 => the bytes at the (universally quantified) ghost index agree;
